@@ -54,6 +54,7 @@ def run(ctx):
                 "model correspondence only) x kernels/metrics; directions: random logit directions W (so P stays on the simplex); "
                 "points where left and right slopes differ (TV kinks, OT basis changes, MMD zero distances) are counted and skipped; "
                 "non-trivial = gradient not identically zero")
+    c01.regen(ctx)          # Gen/Geminis.lean (and the registry) follow the current source before the theorems are re-checked
     ctx.do_prove()
     eps = 1e-12
     depth = 10 if ctx.tier == "quick" else 300
